@@ -29,10 +29,12 @@ def gen_group(rng, nq):
                 if rng.random() < 0.7:
                     r[i] = src[i]
     c = relgen.gen_table(rng, "tc", rkeys[:1] + ["i64"], null_p=null_p)
+    # Parquet for both join inputs or for neither: PackedJoinKeys looks column statistics up by UNQUALIFIED name "from any table
+    # that has it", so a memory table sharing column names with a Parquet table inherits that table's bounds (recorded class
+    # stats-by-name, owned by C03, whose check generates and excuses it); C22's thorough tier met it as a wrong 2-key match.
     if rng.random() < 0.4 and not many:
         b["parquet"] = {"files": [max(1, len(b["rows"]) // 2)], "row_group": rng.choice([1, 2, 1024])}
         b["batch_sizes"] = None
-    if rng.random() < 0.25 and not many:
         a["parquet"] = {"row_group": rng.choice([1, 3, 1024])}
         a["batch_sizes"] = None
     wl = len(lt)
